@@ -348,9 +348,18 @@ func genSplit(g *Gen, n int) {
 			period := g.pickI(1000, 100000)
 			g.emit("v.acct %s cva [uatom=%s,uc4e=1000000] %d %d", a, g.logBig(10), nowS, nowS+period)
 			g.emit("v.fund %s [uatom=%s,uc4e=1000000]", a, "100000000000")
+			g.emit("v.trace %s %d 0 0", a, g.intn(2))
+			// a second recorded account with the same schedule that does not delegate
+			b := vaddr(fresh)
+			fresh++
+			g.emit("v.acct %s cva [uc4e=1000000] %d %d", b, nowS, nowS+period)
+			g.emit("v.fund %s [uc4e=1000000]", b)
+			g.emit("v.trace %s %d 0 0", b, g.intn(2))
 			g.emit("v.delegate %s uc4e %d", a, 500000+g.intn(500000))
 			now += period * sec * int64(1+g.intn(3)) / 4
 			g.emit("v.time %d", now)
+			g.emit("v.q.summary 0")
+			g.emit("v.q.summary 1")
 			to := vaddr(fresh)
 			fresh++
 			g.emit("v.q.locked %s", a)
@@ -376,6 +385,10 @@ func genSplit(g *Gen, n int) {
 			case 2, 3, 4:
 				to := vaddr(fresh)
 				fresh++
+				if g.chance(0.2) {
+					// an existing destination (another vesting account, the owner, or the sender itself)
+					to = g.pick(cvas[g.intn(len(cvas))], owner, src)
+				}
 				amt := g.pick("1", "2", "5", g.logBig(6).String(), g.logBig(18).String(), g.logBig(24).String(), g.logBig(30).String())
 				coins := "[uc4e=" + amt + "]"
 				if g.chance(0.2) {
@@ -388,6 +401,9 @@ func genSplit(g *Gen, n int) {
 			case 5, 6:
 				to := vaddr(fresh)
 				fresh++
+				if g.chance(0.2) {
+					to = g.pick(cvas[g.intn(len(cvas))], owner, src)
+				}
 				g.emit("v.move %s %s", atok(src), atok(to))
 				cvas = append(cvas, to)
 				g.count("op/move")
